@@ -16,7 +16,7 @@ from ..run import hyp_run
 
 ID = 'C13'
 LEVEL = 'exploration'
-BUDGET_S = {'quick': 150, 'thorough': 1500}
+BUDGET_S = {'quick': 300, 'thorough': 1500}
 RULE = ('one workbook per generated nest (plus embedding variants), evaluated under every assignment of its condition cells '
         'from {1, 0, blank, 5}; a case = (formula, assignment); non-trivial = the nest has depth >= 2 or is embedded in a larger '
         'expression, and some branch that is not taken either fails or has a different value from the one taken; '
